@@ -60,3 +60,21 @@ package chronicler
 //@   ensures[closed_writer_is_dropped] calls("FileWriter.Close") > old(calls("FileWriter.Close")) && isnil(lastret("FileWriter.Close")) ==> c.writer == nil && c.writerClosed
 //@   ensures[C25:writer_with_closed_file_is_dropped] calls("FileWriter.Close") > old(calls("FileWriter.Close")) && !isnil(lastret("FileWriter.Close")) ==> c.writer == nil
 //@   before Compactor.Compact [no_open_writer_during_compaction] c.writer == nil || c.writerClosed
+
+// ---------------------------------------------------------------------------------------
+// Legacy (V1) Load -- the reference the migration is measured against (property C23): EVERY record of
+// every chunk file that decodes is put into the map handed to the index (none is filtered out), and the
+// map is handed over exactly once; a record that does not decode aborts the load without handing over.
+//@ trusted func github.com/hydraide/hydraide/app/core/hydra/swamp/treasure.New(saveFn) (t)
+//@   ensures t != nil
+//@ trusted func (github.com/hydraide/hydraide/app/core/hydra/swamp/treasure.Treasure).LoadFromByte(t, guardID, b, fileName) (err)
+//@ trusted func (github.com/hydraide/hydraide/app/core/filesystem.Filesystem).GetAllFileContents(f, folder, exclude) (contents, err)
+//@   ensures err == nil ==> forall k in keys(contents): true
+//@ func (*chronicler).Load(c, indexObj)
+//@   property C23
+//@   overflow: assumed
+//@   requires[wired] c.filesystemInterface != nil && indexObj != nil
+//@   modifies *
+//@   loop 1 invariant[every_decoded_record_is_kept] treasures != nil && (rangeindex >= 0 ==> has(treasures, icall("GetKey", lastarg("Treasure.LoadFromByte", 0))) && treasures[icall("GetKey", lastarg("Treasure.LoadFromByte", 0))] == lastarg("Treasure.LoadFromByte", 0))
+//@   ensures[handed_over_at_most_once] calls("Beacon.PushManyFromMap") <= old(calls("Beacon.PushManyFromMap")) + 1
+//@   ensures[undecodable_record_aborts] calls("Treasure.LoadFromByte") > old(calls("Treasure.LoadFromByte")) && !isnil(lastret("Treasure.LoadFromByte")) ==> calls("Beacon.PushManyFromMap") == old(calls("Beacon.PushManyFromMap"))
